@@ -386,3 +386,6 @@ def run(ctx, fb, cfg):
     check_constructors(ctx, lib, R + "K6.sibling-constructors")
     check_iterators(ctx, lib, R + "K6.sibling-iterators")
     check_is_improper(ctx, lib, R + "K6.is-improper")
+    import termkinds
+
+    termkinds.check_term_kinds(ctx, lib, R + "K5.term-kinds")
